@@ -11,7 +11,7 @@ from vlib import Machinery, log
 
 PATHS = ["a.go", "z.go", "sub/b.go", "sub/deep/e.go", ".m.go", ".hid/c.go", "sub/.d.go", "sub/x.txt", "0.go", "sub.go/k.txt"]
 QUICK_PATHS = PATHS
-THOROUGH_PATHS = PATHS + ["sub/deep/.h/q.go", ".x.go/y.go"]
+THOROUGH_PATHS = PATHS + ["sub/deep/.h/q.go", ".x.go/y.go", "sub/deep/f.txt", "zz/b.go"]
 PATS = ["*.go", "**/*.go", "sub/*", "*/*", "**", "**/*", "sub/**", "*", "s*/*.go", "*.{go,txt}", "**/deep/*", "sub/*.go",
         "*/*.go", "**/*.txt", "**/e.go", "sub/**/*.go", "*.txt", "sub/.*", ".*", "*/*/*.go", "**/b.go", ".hid/*", "**/.d.go", "{a,z}.*"]
 
